@@ -93,6 +93,9 @@ class Scripted:
         return self.srvs[key]
 
     def on_send(self, conn, data):
+        if getattr(self, "duration", 0) and getattr(self, "clock", None) is not None:
+            self.clock[0] += self.duration          # the server takes its time to answer
+            self.duration = 0
         reply = self.server_for(conn).feed(conn.id, data)
         sc = self.script
         ex = self.exchange
@@ -122,7 +125,11 @@ class Scripted:
         if script.get("connect_fault"):
             plan[(script["connect_fault"][0], 0)] = mk_exc(script["connect_fault"][1])
         if script.get("send_fault"):
-            plan[("sendall", script.get("send_fault_at", 0))] = mk_exc(script["send_fault"])
+            after = script.get("send_after")       # None = nothing delivered; -1 = everything; n = first n bytes
+            if after is None:
+                plan[("sendall", script.get("send_fault_at", 0))] = mk_exc(script["send_fault"])
+            else:
+                plan[("sendall-after", script.get("send_fault_at", 0))] = (after, mk_exc(script["send_fault"]))
         self.world.arm(plan)
 
 
@@ -151,6 +158,10 @@ def scripts_for(op_has_reply, rng, thorough):
         out.append({"connect_fault": (api, "refused" if api == "connect" else "oserror")})
     for k in ("pipe", "reset", "timeout"):
         out.append({"send_fault": k})
+    # the send fails after everything / after part of the data reached the server (which answers what it got)
+    for after in (-1, 16, 9):
+        out.append({"send_fault": "timeout", "send_after": after})
+        out.append({"send_fault": "reset", "send_after": after})
     if op_has_reply:
         for kind in FAULT_KINDS + ["eintr"]:
             for pos in range(0, 14 if thorough else 8):
